@@ -522,7 +522,7 @@ def replay(ctx, data):
 
 
 MANIFEST = dict(
-    technique="Lean 4 reference evaluator of PBasic (tokenizer, level-indexed 7-level parser, evaluator, token-driven statement machine, basic_compile/basic_run) with theorems for all expressions/programs/states; translator for the token enumeration, keyword table and operator masks; differential testing against the real engine under four hosts, one forked child per case",
-    text="Theorems (Properties/C17.lean, 20): parse_print_roundtrip_partial / parse_level_roundtrip_partial (for every well-formed derivation of the documented expression grammar - 15 binary operators on 6 levels, prefix operators/functions, parenthesised-argument string functions, redundant parentheses - the model's parser returns exactly the tree the derivation denotes: left fold per level, ^ to the right, unary tighter than binary), eval_compositional(+_un), run_fuel_mono + exec_total (a run ends with values or a typed error independent of the budget; no other outcome exists), hosts_agree (the four hosts observe projections of one run; RATES = CALCULATE_VALUES; error under one is error under all), gosub_return_stack + return_without_gosub (any nesting depth, any open FOR/WHILE frames), read_data_order + scanToks_first (DATA items in program order, first match), for_iterations / for_iterations_down / for_count_closed_form over exact rationals with uninterpreted libm (count floor((b-a)/s)+1, values, final value), next_uses_nextContinues (the machine's NEXT is that decision function). Obligations over generated data (decide): keywords_documented, functions_documented, rel_mask_is_the_six_relations, loop_masks on Gen/BasicTokens.lean regenerated from PBasic.h/PBasic.cpp each run. Correspondence: 300 (quick) / 30000 (thorough) generated programs, 30% with one malformed-program mutation, plus fixed corpus and documented-value (golden) programs; USER_PUNCH via GetSelectedOutputValue, USER_PRINT text, RATES via calc_kinetic_reaction, CALCULATE_VALUES via -calculate_values; numbers at 1e-12 relative, strings exact, error-vs-value must agree, signal/exception/hang = violation; hosts also compared with each other.",
-    note="Trusted: Lean kernel; tools/gen_basic.py (regex extraction); harness/ph_basic.cpp (fork per case, friend access to calc_kinetic_reaction); tools/gens/basic.py; comparison logic in tools/props/c17.py; platform libm/strtod/printf shared by both sides (decimal->double and %e/%f formatting are re-implemented exactly in Model/BasicNum.lean). Partial / not judged (all counted in the evidence): subscripted variables and GET(..) are outside the derivation type of the round-trip theorem; chemistry functions, PEEK/POKE (known finding basic-peek-poke), editor commands (LIST/RUN/NEW/LOAD/MERGE/DEL/RENUM), INPUT, GOTOXY, STR_F$/STR_E$, hexadecimal literals are outside the model ('unsupported', never generated); values after a C conversion with undefined behaviour ((long) of NaN/out of range) or after formatting a NaN (printf shows its sign bit) are compared but a difference is not a violation; programs that exhaust the model's budget (20000 statements), 4M-character strings or 2M-cell arrays are only checked for 'no crash' (budget) or not at all (memory).",
+    technique="Lean 4 reference evaluator of PBasic (tokenizer incl. strtod decimal/hexadecimal, level-indexed 7-level parser, evaluator, token-driven statement machine, basic_compile/basic_run, numtostr and printf %f/%e in exact arithmetic) with theorems for all expressions/programs/states; translator for the token enumeration, keyword table and operator masks; differential testing against the real engine under four hosts, one forked child per case",
+    text="Theorems (Properties/C17.lean, 40): parse_print_roundtrip / parse_level_roundtrip / parse_args_roundtrip (for every well-formed derivation of the documented expression grammar - 15 binary operators on 6 levels, prefix operators/functions, subscripted variables, GET/GET$ argument lists, MID$/PAD/INSTR/TRIM/STR_F$/STR_E$ forms, redundant parentheses; one derivation constructor per expression constructor - the model's parser returns exactly the tree the derivation denotes: left fold per level, ^ to the right, unary tighter than binary), eval_compositional(+_un), run_fuel_mono + exec_total, hosts_agree, gosub_return_stack + return_without_gosub + popTo_gosub, read_data_order + scanToks_first, for_iterations / for_iterations_down / for_count_closed_form (exact rationals, uninterpreted libm), next_uses_nextContinues, if_then_else + skipToElse_prefix/_matching/_nested/_no_else + else_skips_rest, while_statement + wend_statement + wend_without_while + whileSkip_prefix + while_skips_to_matching_wend + while_skips_nested, PUT/GET keyed store: store_get_put_same / store_get_put_other / find_map_same / find_map_other / get_reads_store / put_writes_store / put_then_get. Obligations over generated data (decide): keywords_documented, functions_documented, rel_mask_is_the_six_relations, loop_masks on Gen/BasicTokens.lean regenerated from PBasic.h/PBasic.cpp each run. Correspondence: 300 (quick) / 30000 (thorough, a quarter of them 80-400 lines with nesting depth up to 6) generated programs, 30% with one malformed-program mutation, plus fixed corpus and documented-value (golden) programs that are independent of model and tables; USER_PUNCH via GetSelectedOutputValue, USER_PRINT text, RATES via calc_kinetic_reaction, CALCULATE_VALUES via -calculate_values; numbers at 1e-12 relative, strings exact, error-vs-value must agree (error class compared and reported), signal/exception/hang = violation; hosts also compared with each other.",
+    note="Trusted: Lean kernel; tools/gen_basic.py (regex extraction); harness/ph_basic.cpp (fork per case, friend access to calc_kinetic_reaction); tools/gens/basic.py; comparison logic in tools/props/c17.py; platform libm shared by both sides (strtod and printf formatting are re-implemented exactly in Model/BasicNum.lean / BasicLex.lean and compared). Partial / not judged (all counted in the evidence): PUT argument lists are parsed while evaluated (statement level) and are outside the derivation type; expressions are parsed, then evaluated, so when a line holds both a syntax error and an earlier run-time error the error class can differ (outcome 'error' agrees; 2 of 1366 error programs in a 6000-program run); chemistry functions, PEEK/POKE (known finding basic-peek-poke), editor commands (LIST/RUN/NEW/LOAD/MERGE/DEL/RENUM), INPUT, GOTOXY are outside the model ('unsupported', never generated); values after a C conversion with undefined behaviour ((long)/(int) of NaN/out of range) or after formatting a NaN (printf shows its sign bit) are compared but a difference is not a violation; programs that exhaust the model's budget (20000 statements) are only checked for 'no crash'; 4M-character strings / 2M-cell arrays (memory exhaustion) are not judged.",
 )
